@@ -583,9 +583,20 @@ theorem inDomain_metaOf (F : FileFont) (hl : F.widths.length = F.glyphs.length)
   rw [List.length_map, hl]
   rfl
 
-/-- **Stage 2.**  For every TrueType font value in the domain, the bytes `Write` produces are
+/-- pointwise equal functions give equal `filterMap`s -/
+theorem filterMap_congr' {α β : Type} (f g : α → Option β) : ∀ (l : List α), (∀ x ∈ l, f x = g x) →
+    l.filterMap f = l.filterMap g := by
+  intro l
+  induction l with
+  | nil => intro _; rfl
+  | cons a t ih =>
+    intro h
+    simp only [List.filterMap_cons]
+    rw [h a List.mem_cons_self, ih (fun x hx => h x (List.mem_cons_of_mem _ hx))]
+
+/-- **Byte-level round trip.**  For every TrueType font value in the domain, the bytes `Write` produces are
 read back by `Read` as the explicit normal form: scalar fields `nf`, glyphs, maxp maxima, side
-tables, cmap subtables and glyph names unchanged.  `caretOf` (float trigonometry of `hmtx.toAngle`) is arbitrary: it cannot
+tables, cmap subtables and glyph names unchanged, layout tables as what `ld` makes of their bytes.  `caretOf` (float trigonometry of `hmtx.toAngle`) is arbitrary: it cannot
 influence the result because the post table is present. -/
 theorem file_roundtrip (ld : LayoutDec) (ef : EnvF) (caretOf : Int → Int → Int) (F : FileFont)
     (h : InDomainFile ld ef F) :
@@ -680,7 +691,7 @@ theorem file_roundtrip (ld : LayoutDec) (ef : EnvF) (caretOf : Int → Int → I
         match F.sideTables.find? (·.1 == t) with
         | some p => if p.2.isEmpty then none else some (t, p.2)
         | none => none := by
-    apply List.filterMap_congr
+    apply filterMap_congr'
     intro t ht
     cases hf : F.sideTables.find? (·.1 == t) with
     | none =>
